@@ -324,6 +324,9 @@ func (g *gen) grid() []stmt {
 			add("comment-marker-in-literal", "block-open-dq", hdr, `SELECT 1 AS "/*"`+t+" -- */")
 			add("comment-marker-in-literal", "block-close", hdr, "SELECT 1 /* '*/' */"+t)
 			add("comment-marker-in-literal", "dash-in-dollar", hdr, "SELECT $$--$$"+t)
+			add("comment-marker-in-literal", "dollar-in-dq", hdr, `SELECT 1 AS "$$"`+t+` -- $$`)
+			add("comment-marker-in-literal", "dollar-in-dq-open", hdr, `SELECT 1 AS "$$"`+t)
+			add("comment-marker-in-literal", "quote-in-dq", hdr, `SELECT 1 AS "'"`+t+` -- '`)
 			add("nested-block-comment", "hide-from-duckdb", hdr, "SELECT 1 /* /* */"+t+" /* */ */")
 			add("nested-block-comment", "open-close", hdr, "SELECT 1 /* /* */ */"+t)
 			add("nested-block-comment", "unterminated", hdr, "SELECT 1"+t+" /* /* */")
